@@ -821,6 +821,10 @@ func prioHorizon(sc *PrioSc) int64 {
 
 	for _, a := range sc.Ctl {
 		t += a.WaitNs
+
+		if a.WaitSteps > 0 {
+			t += 5000 // a step wait in a silent system is released after 5 us (simrt.stepWaitSilence)
+		}
 	}
 
 	return 3 * t
